@@ -166,6 +166,20 @@ def masks(draw, shape=None, lo=1, hi=10, ring=0, min_unmasked=1):
     return m
 
 
+def mask_layouts(mask):
+    """The same boolean mask in other memory layouts / input forms (equal element by element to the C-ordered array):
+    Fortran order, a transposed view, a stepped view of a larger frame, a negative-stride view, 0/1 integers."""
+    import numpy as np
+    m = np.ascontiguousarray(np.asarray(mask, dtype=bool))
+    h, w = m.shape
+    big = np.ones((2 * h, 2 * w), dtype=bool); big[::2, ::2] = m
+    out = [("fortran", np.asfortranarray(m.copy())), ("transposed-view", m.T.copy().T), ("stepped-view", big[::2, ::2]),
+           ("negative-stride", m[::-1, ::-1].copy()[::-1, ::-1]), ("int01", m.astype(int))]
+    for _, a in out:
+        assert np.array_equal(np.asarray(a, dtype=bool), m)
+    return out
+
+
 def mask_stats(mask):
     """Classification labels for a mask given as list of lists / array."""
     import numpy as np
